@@ -72,6 +72,22 @@ type gl struct {
 	results     []*types.Var // result variables of the function being translated (plain mode)
 	namedRes    bool
 	methodNames map[string]string // "<RecvType>.<method>" -> translated name
+	opaqueT     map[string]string // Go named struct type (used through pointers, never written) -> Lean type
+	opaqueF     map[string]string // "<Type>.<Field>" -> Lean accessor function
+	iterFuncs   map[string]bool   // translated names of iter.Seq functions (they take the consumer `yield` last)
+}
+
+// opaqueName: the name of the opaque named type behind t (or behind *t), "" if there is none
+func (g *gl) opaqueName(t types.Type) string {
+	if p, ok := t.(*types.Pointer); ok {
+		t = p.Elem()
+	}
+	if n, ok := t.(*types.Named); ok && n.Obj().Pkg() == g.pkg {
+		if _, ok := g.opaqueT[n.Obj().Name()]; ok {
+			return n.Obj().Name()
+		}
+	}
+	return ""
 }
 
 type glFunc struct {
@@ -96,6 +112,9 @@ func (g *gl) die(n ast.Node, why string) {
 // ---- types ---------------------------------------------------------------
 
 func (g *gl) leanType(t types.Type) string {
+	if on := g.opaqueName(t); on != "" {
+		return g.opaqueT[on]
+	}
 	switch u := t.Underlying().(type) {
 	case *types.Basic:
 		switch u.Kind() {
@@ -508,6 +527,16 @@ func (g *gl) expr(e ast.Expr) ex {
 				return atomE("(" + strings.Join(parts, ", ") + ")")
 			}
 		}
+		if _, ok := t.Underlying().(*types.Slice); ok {
+			var parts []string
+			for _, el := range v.Elts {
+				if _, isKV := el.(*ast.KeyValueExpr); isKV {
+					g.die(v, "keyed slice literal")
+				}
+				parts = append(parts, g.expr(el).opnd())
+			}
+			return atomE("[" + strings.Join(parts, ", ") + "]")
+		}
 		if at, ok := t.Underlying().(*types.Array); ok && int64(len(v.Elts)) == at.Len() {
 			var parts []string
 			for _, el := range v.Elts {
@@ -535,6 +564,16 @@ func (g *gl) expr(e ast.Expr) ex {
 			return atomE("[]")
 		}
 	case *ast.SelectorExpr:
+		if tv, ok := g.info.Types[v.X]; ok && tv.Type != nil {
+			if on := g.opaqueName(tv.Type); on != "" {
+				acc, ok := g.opaqueF[on+"."+v.Sel.Name]
+				if !ok {
+					g.die(v, "field "+v.Sel.Name+" of the opaque type "+on)
+				}
+				x := g.expr(v.X)
+				return ex{text: acc + " " + x.arg()}
+			}
+		}
 		if st, ok := g.structOf(v.X); ok {
 			if _, isLoc := v.X.(*ast.Ident); !isLoc || g.structLoc[g.objOf(v.X.(*ast.Ident))] == nil {
 				for k := 0; k < st.NumFields(); k++ {
@@ -828,7 +867,7 @@ func (g *gl) call(c *ast.CallExpr) ex {
 					rt = p.Elem()
 				}
 				if named, ok := rt.(*types.Named); ok {
-					if _, isStruct := named.Underlying().(*types.Struct); !isStruct {
+					if _, isStruct := named.Underlying().(*types.Struct); !isStruct || g.opaqueName(named) != "" {
 						lname, ok := g.methodNames[named.Obj().Name()+"."+fn.Name()]
 						callee := g.funcs[lname]
 						if !ok || callee == nil || !callee.found {
@@ -846,6 +885,9 @@ func (g *gl) call(c *ast.CallExpr) ex {
 						parts = append(parts, g.expr(f.X).arg())
 						for _, a := range c.Args {
 							parts = append(parts, g.expr(a).arg())
+						}
+						if g.iterFuncs[lname] {
+							g.die(c, "an iterator used as a value")
 						}
 						return ex{text: strings.Join(parts, " "), act: true}
 					}
@@ -1731,7 +1773,7 @@ func (g *gl) forStmt(w *wr, v *ast.ForStmt) {
 	if g.readByteLoop(w, v) {
 		return
 	}
-	if v.Init == nil && v.Post == nil && v.Cond != nil && g.rdKind == "" && g.yieldT == "" {
+	if v.Init == nil && v.Post == nil && v.Cond != nil && g.rdKind == "" {
 		// for cond { … }: at most `fuel` iterations; running out of fuel is `none` (no claim)
 		g.usesFuel = true
 		g.nWhile++
@@ -2031,6 +2073,9 @@ func (g *gl) checkAliasing(body ast.Node) {
 					switch r.(type) {
 					case *ast.Ident, *ast.SliceExpr:
 						if rn := rootName(r); rn != "" && rn != "nil" {
+							if l, ok := v.Lhs[i].(*ast.Ident); ok && l.Name == rn {
+								continue // x = x[a:b]: the same variable, nothing is shared
+							}
 							aliased[rn] = true
 							if l, ok := v.Lhs[i].(*ast.Ident); ok {
 								aliased[l.Name] = true
@@ -2259,6 +2304,9 @@ func (g *gl) funcOrMethod(recvType, goName, name, rel, placeholder string) {
 				rt = p.Elem()
 			}
 			st, ok := rt.Underlying().(*types.Struct)
+			if g.opaqueName(robj.Type()) != "" {
+				ok = false // an opaque record: one parameter
+			}
 			if !ok {
 				// a method of a named non-struct type (a map, a slice, …): the receiver is an ordinary parameter
 				params = append(params, "("+g.nameOf(robj)+" : "+g.leanType(robj.Type())+")")
@@ -2329,12 +2377,54 @@ func (g *gl) funcOrMethod(recvType, goName, name, rel, placeholder string) {
 			if !ok || len(r.Results) != 1 {
 				g.die(fd, "iter.Seq function body")
 			}
+			elem := named.TypeArgs().At(0)
+			if dc, isCall := r.Results[0].(*ast.CallExpr); isCall {
+				// return x.other(args): the iterator of another translated iter.Seq method, handed on unchanged
+				sel, ok := dc.Fun.(*ast.SelectorExpr)
+				if !ok {
+					g.die(fd, "iter.Seq delegation")
+				}
+				fn, ok := g.info.Uses[sel.Sel].(*types.Func)
+				if !ok || fn.Pkg() != g.pkg {
+					g.die(fd, "iter.Seq delegation")
+				}
+				rcv := fn.Type().(*types.Signature).Recv()
+				if rcv == nil {
+					g.die(fd, "iter.Seq delegation")
+				}
+				lname, ok := g.methodNames[g.opaqueName(rcv.Type())+"."+fn.Name()]
+				callee := g.funcs[lname]
+				if !ok || callee == nil || !callee.found || !g.iterFuncs[lname] {
+					g.die(fd, "delegation to an untranslated iterator")
+				}
+				parts := []string{lname}
+				if callee.fuel {
+					g.usesFuel = true
+					parts = append(parts, "fuel")
+				}
+				parts = append(parts, g.expr(sel.X).arg())
+				for _, a := range dc.Args {
+					parts = append(parts, g.expr(a).arg())
+				}
+				parts = append(parts, "yield")
+				yt := g.leanType(elem)
+				params = append(params, "(yield : List "+paren(yt)+" → Bool)")
+				if g.usesFuel {
+					params = append([]string{"(fuel : Nat)"}, params...)
+					g.funcs[name].fuel = true
+				}
+				g.iterFuncs[name] = true
+				src := "(" + recvType + ")." + goName
+				text := fmt.Sprintf("def %s_Found : Bool := true\n/-- translated from %s in %s/%s: the iterator of %s, unchanged -/\ndef %s %s : Option (List %s) := do\n  return (← %s)\n",
+					name, src, rel, file, lname, name, strings.Join(params, " "), paren(yt), strings.Join(parts, " "))
+				return text, nil
+			}
 			fl, ok := r.Results[0].(*ast.FuncLit)
 			if !ok || len(fl.Type.Params.List) != 1 || len(fl.Type.Params.List[0].Names) != 1 || fl.Type.Params.List[0].Names[0].Name != "yield" {
 				g.die(fd, "iter.Seq closure")
 			}
-			elem := named.TypeArgs().At(0)
 			g.yieldT = g.leanType(elem)
+			g.iterFuncs[name] = true
 			params = append(params, "(yield : List "+paren(g.yieldT)+" → Bool)")
 			resT = "List " + paren(g.yieldT)
 			g.findMutated(fl.Body)
@@ -2950,7 +3040,7 @@ func loadPkg(dir string) *gl {
 		fmt.Fprintln(os.Stderr, "golean: cannot parse", dir, err)
 		os.Exit(2)
 	}
-	g := &gl{fset: fset, funcs: map[string]*glFunc{}}
+	g := &gl{fset: fset, funcs: map[string]*glFunc{}, iterFuncs: map[string]bool{}}
 	for _, p := range pkgs {
 		var names []string
 		for n := range p.Files {
@@ -2971,6 +3061,7 @@ func goLean(repo, out string) {
 	w := &bytes.Buffer{}
 	fmt.Fprintln(w, "-- GENERATED by harness/cmd/translate -go from the Go source text of /repo on every run. Do not edit.")
 	fmt.Fprintln(w, "import Bio.Model.GoRt")
+	fmt.Fprintln(w, "import Bio.Model.GoRtNewick")
 	fmt.Fprintln(w, "namespace Bio.Generated.GoSrc")
 	fmt.Fprintln(w, "open Bio Bio.GoRt")
 	fmt.Fprintln(w)
@@ -3057,6 +3148,18 @@ func goLean(repo, out string) {
 	floatAsInt = false
 	for _, n := range g7.order {
 		w.WriteString(g7.funcs[n].text)
+		w.WriteString("\n")
+	}
+	// formats/newick: the explicit-stack traversal.  *Node is the hand model's tree (`Newick.Tree`, never written
+	// by this code), `n.Children` its list of children (`kidsOf`, Bio/Model/GoRtNewick.lean)
+	g2.opaqueT = map[string]string{"Node": "Newick.Tree"}
+	g2.opaqueF = map[string]string{"Node.Children": "kidsOf"}
+	g2.methodNames = map[string]string{"Node.traverse": "traverse", "Node.PreOrder": "PreOrder", "Node.PostOrder": "PostOrder"}
+	g2.method("Node", "traverse", "traverse", "formats/newick", "def traverse (fuel : Nat) (n : Newick.Tree) (pre : Bool) (yield : List Newick.Tree → Bool) : Option (List Newick.Tree) := none")
+	g2.method("Node", "PreOrder", "PreOrder", "formats/newick", "def PreOrder (fuel : Nat) (n : Newick.Tree) (yield : List Newick.Tree → Bool) : Option (List Newick.Tree) := none")
+	g2.method("Node", "PostOrder", "PostOrder", "formats/newick", "def PostOrder (fuel : Nat) (n : Newick.Tree) (yield : List Newick.Tree → Bool) : Option (List Newick.Tree) := none")
+	for _, n := range []string{"traverse", "PreOrder", "PostOrder"} {
+		w.WriteString(g2.funcs[n].text)
 		w.WriteString("\n")
 	}
 	g8 := loadPkg(filepath.Join(repo, "formats", "bed"))
